@@ -59,62 +59,73 @@ def run(ctx, res):
         fld, loc, RB = rd
         res.floor("C03.R1", 4)
         res.tables["C03.R1.cache_field"] = fld
+        # Decided at the functions the reader installs (the four source slots and the iterator's seek / next), on their paths
+        # with the file's internal functions evaluated as part of them, except the leaf block loaders (static functions
+        # returning a block that call no other such function), which stay calls: whenever such a path ends with a block
+        # in the iterator that was loaded on the path, the cached offset holds, at the end, the offset that block was
+        # loaded from - stored directly, through an out-parameter, or because the block was loaded *from* the field.
+        entries = []
+        for i_ in range(4):
+            entries += [n_ for n_ in cg.param_funcs.get(("mtbl_source_init", i_), ()) if prog.func(n_, U) is not None and prog.func(n_, U).file.endswith("reader.c")]
+        for i_ in range(3):
+            entries += [n_ for n_ in cg.param_funcs.get(("mtbl_iter_init", i_), ()) if prog.func(n_, U) is not None and prog.func(n_, U).file.endswith("reader.c")]
+        entries = sorted(set(entries))
+        loaders = [g for g in prog.unit_funcs(U, helpers=True) if g.file.endswith("reader.c") and g.d.get("static")
+                   and (g.d.get("cret") or g.d.get("ret") or "").replace(" ", "") == "structblock*"]
+        names = set(g.name for g in loaders)
+        leaf = [g.name for g in loaders if not any(c.get("callee") in names and c.get("callee") != g.name for c in g.calls())]
+        if not leaf:
+            raise BrokenAnalysis("no block-loading function (static, returning struct block *) found in reader.c")
+        res.tables["C03.R1.loaders"] = sorted(leaf)
         nloads = 0
-        for g in prog.unit_funcs(U):
-            loads = [(n, lhs) for n, lhs in field_stores(g, "reader_iter", "b")
-                     if n["k"] == "BinaryOperator" and strip(n["kids"][1])["k"] == "CallExpr"
-                     and strip(n["kids"][1]).get("t") == "struct block *"]
-            if not loads:
-                continue
+        for fn in entries:
+            g = prog.func(fn, U)
             res.saw(g)
-            ev = APE.run(prog, cg, g, bound=APE.BOUND)
-            for n, lhs in loads:
-                nloads += 1
-                call = strip(n["kids"][1])
-                sig = site(g, "it->b:=%s" % call.get("callee"))
-                bad_path = None
-                npaths = 0
-                for p in ev.paths:
-                    evs = [e for e in p.events if e.kind != "branch"]
-                    le = [e for e in evs if e.kind == "call" and same_node(e.node, call)]
-                    if not le or p.end != "exit":
-                        continue
-                    le = le[-1]
-                    itname = canon(lhs["kids"][0])
-                    # paths that free the iterator object do not matter
-                    if any(e.kind == "call" and e.a == "free" and APE.vstr(e.b[0]).split("@")[0] == itname for e in evs):
-                        continue
-                    npaths += 1
-                    coupled = False
-                    # (a) direct store of the offset that selected the block
-                    offarg = None
-                    for i, a in enumerate(call_args(call)):
-                        t = strip(a).get("ct", strip(a).get("t", ""))
-                        if t in ("unsigned long", "uint64_t", "unsigned long long", "size_t"):
-                            offarg = le.b[i]
-                    for e in evs:
-                        if e.kind == "store" and e.a.endswith("->" + fld) and offarg is not None and e.b == offarg:
-                            coupled = True
-                    # (b) through an out-parameter &it->FIELD written by the callee with the offset it loads from
-                    for i, a in enumerate(call_args(call)):
-                        s = strip(a)
-                        if s["k"] == "UnaryOperator" and s.get("op") == "&" and strip(s["kids"][0])["k"] == "MemberExpr" \
-                                and strip(s["kids"][0])["field"] == fld:
-                            k = cg.resolve(g.unit, call.get("callee"))
-                            if k and i in cg.sum[k].wderef and _callee_couples(prog, cg, cg.funcs[k], i):
-                                coupled = True
-                    if not coupled:
-                        bad_path = p
-                        break
-                if npaths == 0:
+            ev = APE.run(prog, cg, g, bound=APE.BOUND, inline=("*static",), opaque_calls=tuple(leaf))
+            bad_path, why, npaths = None, None, 0
+            for p in ev.paths:
+                if p.end != "exit":
                     continue
-                res.check(bad_path is None, "C03.R1", sig,
-                          "the cached offset `%s` is stored together with the block on every surviving path" % fld,
-                          "a freshly loaded block is stored into the iterator while the cached offset `%s` keeps its old value; "
-                          "reader_iter_seek then skips the reload when the index yields that stale offset and answers from the "
-                          "wrong block" % fld, g.loc(n), bad_path.describe(g) if bad_path else None)
-        if nloads < 2:
-            raise BrokenAnalysis("block loads into reader_iter.b: %d found, 4 confirmed by hand" % nloads)
+                evs = [e for e in p.events if e.kind != "branch"]
+                stores_b = [(i, e) for i, e in enumerate(evs) if e.kind == "store" and re.sub(r"@\d+", "", e.a).endswith("->b")]
+                if not stores_b:
+                    continue
+                i_b, e_b = stores_b[-1]
+                le = [(i, e) for i, e in enumerate(evs) if e.kind == "call" and e.a in leaf and e.c == e_b.b]
+                if not le:
+                    continue          # the last value stored is not a freshly loaded block (NULL, or moved)
+                obj = re.sub(r"@\d+", "", e_b.a)[:-3]
+                objval = next((x.b for x in reversed(evs) if x.kind == "store" and x.a == obj), ("s", obj))
+                if any(e.kind == "call" and e.a in ("free", "my_free") and e.b and e.b[0] == objval for e in evs[i_b:]):
+                    continue          # the iterator itself is freed on this path
+                npaths += 1
+                i_l, e_l = le[-1]
+                gl = prog.func(e_l.a, U)
+                offs = [e_l.b[i] for i, prm in enumerate(gl.params) if i < len(e_l.b) and
+                        (prm.get("ct") or prm.get("t") or "") in ("unsigned long", "uint64_t", "unsigned long long", "size_t")]
+                if len(offs) != 1:
+                    raise BrokenAnalysis("block loader %s: the offset parameter is not recognised" % e_l.a)
+                O = offs[0]
+                st_f = [(i, e) for i, e in enumerate(evs) if e.kind == "store" and re.sub(r"@\d+", "", e.a) == obj + "->" + fld]
+                if st_f:
+                    coupled = st_f[-1][1].b == O
+                else:
+                    # loaded from the field itself, and the field is not touched afterwards
+                    coupled = strip_tags(APE.vstr(O)) == obj + "->" + fld
+                if not coupled:
+                    bad_path = p
+                    why = "block loaded from %s, `%s` holds %s" % (APE.vstr(O)[:60], fld, APE.vstr(st_f[-1][1].b)[:60] if st_f else "its old value")
+                    break
+            if npaths == 0:
+                continue
+            nloads += 1
+            res.check(bad_path is None, "C03.R1", site(g, "it->b:=block"),
+                      "the cached offset `%s` is the offset of the block the iterator holds on every path that loads one" % fld,
+                      "a freshly loaded block is stored into the iterator while the cached offset `%s` does not hold the offset it was loaded from (%s); "
+                      "reader_iter_seek then skips the reload when the index yields that stale offset and answers from the "
+                      "wrong block" % (fld, why), g.loc(g.body), bad_path.describe(g) if bad_path else None)
+        if nloads < 4:
+            raise BrokenAnalysis("entry points of reader.c that load a block into an iterator: %d found, 6 confirmed by hand" % nloads)
 
     # ---- R2 flags --------------------------------------------------------------------
     res.floor("C03.R2", 6)
@@ -124,21 +135,32 @@ def run(ctx, res):
             continue
         evs = [e for e in p.events if e.kind != "branch"]
         r = p.ret()
-        gets = [e for e in evs if e.kind == "call" and e.a == "block_iter_get" and canon(call_args(e.node)[0]).endswith("->index_iter")]
+        # by value: the iterators and flags are recognised through what reaches the calls and stores, whoever makes them
+        gets = [e for e in evs if e.kind == "call" and e.a == "block_iter_get" and e.b and strip_tags(APE.vstr(e.b[0])).endswith("->index_iter")]
         exhausted = None
         for g_ in gets:
             c = p.cons.get((APE.vstr(g_.c), "#0"))
             if c is not None:
                 exhausted = c == frozenset((EQ,))
-        vs = [e for e in evs if e.kind == "store" and e.a.endswith("->valid")]
-        fs = [e for e in evs if e.kind == "store" and e.a.endswith("->first")]
-        bs = [e for e in evs if e.kind == "call" and e.a == "block_iter_seek" and canon(call_args(e.node)[0]).endswith("->bi")]
+
+        def truth(v):
+            if v is None:
+                return None
+            if v[0] == "c":
+                return v[1] != 0
+            c_ = p.cons.get((APE.vstr(v), "#0"))
+            if c_ is None:
+                return None
+            return False if c_ == frozenset((EQ,)) else (True if EQ not in c_ else None)
+        vs = [e for e in evs if e.kind == "store" and strip_tags(e.a).endswith("->valid")]
+        fs = [e for e in evs if e.kind == "store" and strip_tags(e.a).endswith("->first")]
+        bs = [e for i_, e in enumerate(evs) if e.kind == "call" and e.a == "block_iter_seek" and e.b and held_in(evs, i_, e.b[0], "bi")]
         if exhausted:
-            res.check(r == ("c", OKV) and len(vs) == 1 and vs[0].b == ("c", 0) and not bs, "C03.R2", site(seek, "past-the-end"),
+            res.check(r == ("c", OKV) and bool(vs) and truth(vs[-1].b) is False and not bs, "C03.R2", site(seek, "past-the-end"),
                       "seek past the last key: valid := false, success, no block touched",
                       "seek past the end does not simply mark the iterator invalid", seek.loc(seek.body), p.describe(seek))
         elif r == ("c", OKV):
-            good = vs and vs[-1].b == ("c", 1) and fs and fs[-1].b == ("c", 1) and len(bs) == 1 and \
+            good = vs and truth(vs[-1].b) is True and fs and truth(fs[-1].b) is True and len(bs) == 1 and \
                 bs[0].b[1] == ("s", seek.params[1]["name"]) and bs[0].b[2] == ("s", seek.params[2]["name"])
             res.check(good, "C03.R2", site(seek, "positioned"),
                       "successful seek: in-block seek with the target, then first := true and valid := true",
